@@ -21,17 +21,25 @@ Inductive ev :=
       (* executed_compare/bool/in_presence/exception_match: gate; body inside temporarily_disable;
          [inner]: code of the subject that the body runs (user operators such as __eq__), itself
          instrumented; [raises]: the body raises (the operator raised) instead of recording *)
+  | Track (id : Z) (inner : list ev) (raises : bool)
+      (* track_attribute_access and the other checked-coverage / memory callbacks: gate, NO bracket;
+         [inner]: code of the subject that the callback itself runs with tracing still enabled
+         (getattr / hasattr on the object: properties, __getattr__, descriptors); [raises]: that
+         code raises (the exception reaches the subject) instead of the instruction being recorded;
+         track_generic/memory/jump/call/return are the case inner = [], raises = false *)
   | DisableBlock (inner : list ev) (raises : bool)   (* with tracer.temporarily_disable(): inner *)
   | EnableBlock (inner : list ev) (raises : bool).   (* with tracer.temporarily_enable(): inner *)
 
-Record state := { enabled : bool; lines : list Z; preds : list Z }.   (* newest first *)
+Record state := { enabled : bool; lines : list Z; preds : list Z; instrs : list Z }.   (* newest first *)
 
 Definition set_enabled (b : bool) (st : state) : state :=
-  {| enabled := b; lines := lines st; preds := preds st |}.
+  {| enabled := b; lines := lines st; preds := preds st; instrs := instrs st |}.
 Definition rec_line (id : Z) (st : state) : state :=
-  {| enabled := enabled st; lines := id :: lines st; preds := preds st |}.
+  {| enabled := enabled st; lines := id :: lines st; preds := preds st; instrs := instrs st |}.
 Definition rec_pred (id : Z) (st : state) : state :=
-  {| enabled := enabled st; lines := lines st; preds := id :: preds st |}.
+  {| enabled := enabled st; lines := lines st; preds := id :: preds st; instrs := instrs st |}.
+Definition rec_instr (id : Z) (st : state) : state :=
+  {| enabled := enabled st; lines := lines st; preds := preds st; instrs := id :: instrs st |}.
 
 (* [fin]: the brackets restore the switch in a `finally` clause (true after fixes/C05-1; the
    harness reads it off the source of temporarily_disable / temporarily_enable on every run).
@@ -47,6 +55,11 @@ Fixpoint run_ev (fin : bool) (e : ev) (st : state) {struct e} : state :=
         let st2 := run_list inner (set_enabled false st) in
         let st3 := if raises then st2 else rec_pred id st2 in   (* _update_metrics *)
         if raises && negb fin then st3 else set_enabled true st3
+      else st
+  | Track id inner raises =>
+      if enabled st then                                   (* _early_return *)
+        let st2 := run_list inner st in                    (* user code runs traced *)
+        if raises then st2 else rec_instr id st2
       else st
   | DisableBlock inner raises =>
       if enabled st then
@@ -82,14 +95,16 @@ Fixpoint list_eqb (a b : list Z) : bool :=
   end.
 
 (* what the harness reads off the real tracer after a top-level event: is_disabled() negated,
-   covered_line_ids in insertion order, executed_predicates as (id, count) *)
-Definition obs := (bool * list Z * list (Z * Z))%type.
+   covered_line_ids in insertion order, executed_predicates as (id, count), the line numbers of
+   executed_instructions in order *)
+Definition obs := (bool * list Z * list (Z * Z) * list Z)%type.
 
 Definition obs_ok (st : state) (o : obs) : bool :=
-  let '(en, ls, ps) := o in
+  let '(en, ls, ps, ins) := o in
   Bool.eqb en (enabled st) && list_eqb (oset (rev (lines st))) ls &&
   forallb (fun p => Z.eqb (count (fst p) (preds st)) (snd p)) ps &&
-  Z.eqb (Z.of_nat (length (preds st))) (fold_left (fun a p => a + snd p) ps 0).
+  Z.eqb (Z.of_nat (length (preds st))) (fold_left (fun a p => a + snd p) ps 0) &&
+  list_eqb (rev (instrs st)) ins.
 
 Fixpoint run_check (fin : bool) (st : state) (h : list (ev * obs)) : bool :=
   match h with
@@ -99,6 +114,6 @@ Fixpoint run_check (fin : bool) (st : state) (h : list (ev * obs)) : bool :=
 
 Definition case := (bool * bool * list (ev * obs))%type.     (* fin, initially enabled, history *)
 Definition check_case (c : case) : bool :=
-  let '(fin, en, h) := c in run_check fin {| enabled := en; lines := []; preds := [] |} h.
+  let '(fin, en, h) := c in run_check fin {| enabled := en; lines := []; preds := []; instrs := [] |} h.
 
 End C05.
